@@ -19,7 +19,7 @@ theorem step_cmd_dst {s s' : Sys} {o : Op} {r : Rep} (hG : GInv s) (hO : OInv s)
   have hk1 := apply_keeps_some (c := o.cmd) (x := s.dst)
   have hk2 := apply_deletes (c := o.cmd) (x := s.dst)
   refine ⟨⟨?_, ?_⟩, ?_, ?_⟩
-  · cases hd : o.cmd.deletes <;> simp only [hd, true_implies, Bool.false_eq_true, false_implies, forall_const] at hdl hk1 hk2 <;>
+  · cases hd : o.cmd.deletes <;> simp only [hd, Bool.false_eq_true, false_implies, forall_const] at hdl hk1 hk2 <;>
     constructor <;> first
       | exact g8_setPc (pc := .done r) (s := { s with dst := (o.cmd.apply s.dst).1 }) rfl g8 ho hnc
       | (simp only [setPc, critDump, Moved] at * ; mig_grind)
@@ -32,7 +32,7 @@ theorem step_cmd_dst {s s' : Sys} {o : Op} {r : Rep} (hG : GInv s) (hO : OInv s)
       simp only [OpOk] at hoa
       exact ⟨by simpa [setPc] using hid ▸ hoa.1, hoa.2.1, trivial⟩
     · simp only [hid, if_false]
-      cases hd : o.cmd.deletes <;> simp only [hd, true_implies, Bool.false_eq_true, false_implies, forall_const] at hdl hk1 hk2 <;>
+      cases hd : o.cmd.deletes <;> simp only [hd, Bool.false_eq_true, false_implies, forall_const] at hdl hk1 hk2 <;>
       simp only [OpOk, DstFlight, Moved, critDump, setPc] at hoa ⊢ <;> (split <;> simp_all <;> mig_grind)
   · rw [hlog]; simpa using hg
   · have : logical (setPc { s with dst := (o.cmd.apply s.dst).1 } o.id (.done r)) = (o.cmd.apply s.dst).1 := by
